@@ -164,6 +164,7 @@ theorem rstep_allwf (r : RState) (op : ROp) (h : AllNotesWF r.st.log r.st.notes)
     split <;> exact hm
   | switchMerge l n hd ys => exact hm
   | aborted => exact h
+  | typed who ids => exact h
 
 /-- **every note is well-formed against its commit, after every operation.** -/
 theorem notes_wf_history (r : RState) (ops : List ROp) (h : AllNotesWF r.st.log r.st.notes)
